@@ -2421,6 +2421,110 @@ def expand_table_dispatch(tree):
     return count
 
 
+def fuse_generator_loops(tree, shape):
+    """N25.  `for T in gen(args): BODY` over a new generator function of the module is the generator's body with every
+    `yield X` replaced by `T = X; BODY` (consumer fused into producer), when the generator only yields at statement level,
+    never returns early, BODY does not `break`, and - if BODY uses `continue` - every yield is the last statement of its loop."""
+    pinned = set(shape["functions"])
+    gens = {}
+    for st in tree.body:
+        if isinstance(st, ast.FunctionDef) and st.name not in pinned:
+            h = Helper(st)
+            if h.usable() and h.is_gen:
+                gens[st.name] = h
+    if not gens:
+        return []
+    fused = []
+
+    def top_level(body, kinds):
+        """statements of the given kinds that belong to this loop level (not to a nested loop / function)"""
+        out = []
+        def rec(stmts):
+            for s_ in stmts:
+                if isinstance(s_, kinds):
+                    out.append(s_)
+                if isinstance(s_, (ast.For, ast.While, ast.FunctionDef, ast.AsyncFunctionDef, ast.ClassDef)):
+                    continue
+                for f_ in ("body", "orelse", "finalbody"):
+                    rec(getattr(s_, f_, []) or [])
+                for hd in getattr(s_, "handlers", []) or []:
+                    rec(hd.body)
+        rec(body)
+        return out
+
+    def yield_sites(stmts, in_loop_tail, acc):
+        """-> False if the generator has a yield that is not a plain statement; acc gets (list, index, tail?)"""
+        for i, s_ in enumerate(stmts):
+            if isinstance(s_, ast.Expr) and isinstance(s_.value, ast.Yield):
+                if s_.value.value is None:
+                    return False
+                acc.append((stmts, i, in_loop_tail and i == len(stmts) - 1))
+                continue
+            if any(isinstance(n, (ast.Yield, ast.YieldFrom)) for n in ast.walk(s_)) and not isinstance(s_, (ast.For, ast.While, ast.If, ast.With, ast.Try)):
+                return False
+            if isinstance(s_, (ast.For, ast.While)):
+                if any(isinstance(n, (ast.Yield, ast.YieldFrom)) for n in ast.walk(s_.iter if isinstance(s_, ast.For) else s_.test)):
+                    return False
+                if not yield_sites(s_.body, True, acc) or not yield_sites(s_.orelse, False, acc):
+                    return False
+            elif isinstance(s_, ast.If):
+                if not yield_sites(s_.body, False, acc) or not yield_sites(s_.orelse, False, acc):
+                    return False
+            elif isinstance(s_, (ast.With, ast.Try)):
+                for f_ in ("body", "orelse", "finalbody"):
+                    if not yield_sites(getattr(s_, f_, []) or [], False, acc):
+                        return False
+                for hd in getattr(s_, "handlers", []) or []:
+                    if not yield_sites(hd.body, False, acc):
+                        return False
+        return True
+    for q, fn in functions_of(tree).items():
+        taken = fn_locals(fn) | {n.id for n in _walk_fn(fn) if isinstance(n, ast.Name)}
+        for owner, field, lst in _stmt_lists(fn):
+            i = 0
+            while i < len(lst):
+                st = lst[i]
+                i += 1
+                if not (isinstance(st, ast.For) and not st.orelse and isinstance(st.iter, ast.Call) and isinstance(st.iter.func, ast.Name)
+                        and st.iter.func.id in gens):
+                    continue
+                h = gens[st.iter.func.id]
+                if h.fn is fn or any(isinstance(n, ast.Return) for n in _walk_fn(h.fn)):
+                    continue
+                if top_level(st.body, (ast.Break,)) or any(isinstance(n, (ast.FunctionDef, ast.Lambda)) for b_ in st.body for n in ast.walk(b_)):
+                    continue
+                # when the generator yields exactly the names the loop unpacks into, they are the same variables
+                tnames = [n.id for n in ast.walk(st.target) if isinstance(n, ast.Name)]
+                yvals = [y.value.value for y in _walk_fn(h.fn) if isinstance(y, ast.Expr) and isinstance(y.value, ast.Yield) and y.value.value is not None]
+                same = bool(yvals) and all(ast.dump(v).replace("Load()", "X").replace("Store()", "X") == ast.dump(st.target).replace("Load()", "X").replace("Store()", "X") for v in yvals) and not (set(tnames) & set(h.params))
+                try:
+                    pro, body = h.instantiate(st.iter, False, (taken - set(tnames)) if same else taken)
+                except NotInlineable:
+                    continue
+                acc = []
+                if not yield_sites(body, False, acc) or not acc:
+                    continue
+                if top_level(st.body, (ast.Continue,)) and not all(tail for _l, _i, tail in acc):
+                    continue
+                for l_, k_, _tail in sorted(acc, key=lambda t: -t[1]):
+                    y = l_[k_]
+                    bind = ast.copy_location(ast.Assign(targets=[copy.deepcopy(st.target)], value=y.value.value, lineno=y.lineno), y)
+                    for n in ast.walk(bind.targets[0]):
+                        if isinstance(n, ast.Name):
+                            n.ctx = ast.Store()
+                    l_[k_:k_ + 1] = ([] if same else [bind]) + copy.deepcopy(st.body)
+                lst[i - 1:i] = pro + body
+                fused.append(h.name)
+                i = i - 1 + len(pro) + len(body)
+    if fused:
+        ast.fix_missing_locations(tree)
+        # generators that are no longer referenced are dropped
+        for name, h in gens.items():
+            if name in fused and not any(isinstance(n, ast.Name) and n.id == name and isinstance(n.ctx, ast.Load) for n in ast.walk(tree)):
+                tree.body.remove(h.fn)
+    return sorted(set(fused))
+
+
 def normalise(tree, modname, shape_all=None, keep=frozenset()):
     """normalise `tree` in place against the pinned shape of module `modname`; returns a log dict"""
     shape_all = shape_all if shape_all is not None else load_shape()
@@ -2448,7 +2552,10 @@ def normalise(tree, modname, shape_all=None, keep=frozenset()):
     rec = scalar_replace_records(tree, shape)
     if rec:
         log["records"] = rec
-    log["inlined"] = sorted(set(inline_helpers(tree, shape, keep)))
+    fz = fuse_generator_loops(tree, shape)
+    if fz:
+        log["fused"] = fz
+    log["inlined"] = sorted(set(inline_helpers(tree, shape, keep)) | set(fz))
     if log["constants"] or log["inlined"]:
         _Recompile().visit(tree)
         ast.fix_missing_locations(tree)
